@@ -58,10 +58,18 @@ def make_ops(rng, cfg, profile, tier):
             ops.append({'op': 'MC_THEN_PANEL', 'a': [rng.randrange(5)]})
         elif r < 0.859:
             ops.append({'op': 'REDECLARE', 'a': []})
-        elif r < 0.86:
+        elif r < 0.8595:
             ops.append({'op': 'SAMPLE_MAP_MANY', 'a': []})
+        elif r < 0.86:
+            ops.append({'op': 'FLATTEN', 'a': [rng.randrange(2)]})
         elif r < 0.9:
             ops.append({'op': 'BOOT_EST', 'a': [rng.choice(list(range(1, ni + 3))), rng.randrange(5)]})
+        elif r < 0.925:
+            ops.append({'op': 'FLATTEN', 'a': [rng.randrange(2)]})
+        elif r < 0.94:
+            ops.append({'op': 'SAMPLE_MAP_MANY', 'a': []})
+        elif r < 0.955:
+            ops.append({'op': 'REDECLARE', 'a': []})
         else:
             ops.append({'op': 'SIZE', 'a': [rng.choice(['traj', 'mc'])]})
     return ops
@@ -424,6 +432,46 @@ class Session:
                              'being declared panel', ids_now, list(vals), self.reference('mc', betas))
                 ctx.probe('Monte-Carlo evaluation before and after panel() on one Database')
                 ctx.log(kind, a[0])
+        elif kind == 'FLATTEN':
+            # one row per individual: the j-th observation of an individual (in the order of the table) fills the columns
+            # j_<name>; nothing of another individual, nothing dropped - through the Database method (sorted table) or by
+            # calling the function on the table as presented (identifiers in any order)
+            import biogeme.tools.database as tdb
+            import math as _m
+            data_ = self.db.data[['pid', 'x0', 'x1', 'y', 'tag']].copy()
+            if a[0]:
+                # the table as a user may hold it: the blocks of the individuals in DEcreasing order of their identifiers
+                data_ = data_.sort_values('pid', kind='stable', ascending=False).reset_index(drop=True)
+                flat = tdb.flatten_database(data_, 'pid')
+            else:
+                self.db.build_panel_map()
+                data_ = self.db.data[['pid', 'x0', 'x1', 'y', 'tag']].copy()
+                flat = self.db.generate_flat_panel_dataframe()
+            by_tag = {r_['tag']: r_ for r_ in self.rows}
+            ids_now = sorted({r_['pid'] for r_ in self.rows})
+            if sorted(float(v_) for v_ in flat.index.to_list()) != ids_now:
+                ctx.fail('I09.flat', f'flat table rows {flat.index.to_list()} for the individuals {ids_now}')
+            for ident in ids_now:
+                own = [by_tag[float(t_)] for t_, p_ in zip(data_['tag'].to_list(), data_['pid'].to_list()) if float(p_) == ident]
+                row = flat.loc[ident]
+                for j_, r_ in enumerate(own, start=1):
+                    for c_ in ('x0', 'x1', 'y', 'tag'):
+                        key = f'{j_}_{c_}'
+                        if key in flat.columns:
+                            v_ = float(row[key])
+                        elif c_ in flat.columns:
+                            v_ = float(row[c_])
+                        else:
+                            ctx.fail('I09.flat', f'individual {ident}: column {c_} of its observation {j_} is nowhere in the flat table')
+                        if v_ != r_[c_]:
+                            ctx.fail('I09.flat', f'individual {ident}: observation {j_} has {c_} = {r_[c_]!r}, the flat table holds '
+                                                 f'{v_!r}')
+                extra = f'{len(own) + 1}_tag'
+                if extra in flat.columns and not _m.isnan(float(row[extra])):
+                    ctx.fail('I09.flat', f'individual {ident} has {len(own)} observations, the flat table lists more')
+            self.stale = False
+            ctx.probe('panel table flattened')
+            ctx.log(kind, a[0], list(flat.shape))
         elif kind == 'SAMPLE_MAP_MANY':
             # bootstrap samples of the individuals: every sample has as many entries as there are individuals, each entry is
             # one individual with its own block of rows, and over 40 samples every individual is drawn at least once (the
